@@ -3,6 +3,7 @@
 
 mod common;
 mod conc;
+mod corpus_gen;
 mod engine;
 mod explore;
 mod fixtures_gen;
